@@ -267,12 +267,14 @@ func (d *f32StringDecoder) FromDom(vp unsafe.Pointer, node Node, ctx *context) e
 		return nil
 	}
 
+	/* the range is checked after narrowing: a literal that rounds to MaxFloat32 is in range */
 	ret, err := ParseF64(s)
-	if err != nil || ret > math.MaxFloat32 || ret < -math.MaxFloat32 {
+	val := float32(ret)
+	if err != nil || math.IsInf(float64(val), 0) {
 		return error_mismatch(node, ctx, float32Type)
 	}
 
-	*(*float32)(vp) = float32(ret)
+	*(*float32)(vp) = val
 	return nil
 }
 
